@@ -441,6 +441,8 @@ class Body:
         if k == "const":
             if "fn" in operand:
                 return ('fn', operand["fn"])
+            if "promoted" in operand and "uneval" in operand:
+                return ('sym', f"{operand['uneval']}::promoted[{operand['promoted']}]")
             if "val" in operand:
                 v = operand["val"]
                 try:
@@ -636,6 +638,8 @@ class Program:
         """Select bodies by stable attributes (self ADT path, item name, implemented trait)."""
         out = []
         for b in self.bodies:
+            if b.kind == "Promoted":
+                continue
             if closure is None and b.kind == "Closure":
                 continue
             if closure is not None and (b.kind == "Closure") != closure:
